@@ -23,7 +23,7 @@ ASSUMPTIONS = [
     'bool is not used as an Integer/Number value or List item; Selector/ListSelector objects are int/float/str literals',
     'ClassSelector class_ and List item_type are drawn from the literal types (int, float, str) and tuples of them',
 ]
-REQUIRED = {'states_validated': 1500, 'oob_probes': 500, 'schemas_checked': 300, 'customised_instances': 50}
+REQUIRED = {'states_validated': 1500, 'oob_probes': 500, 'schemas_checked': 300, 'customised_instances': 50, 'deep_hierarchy_cases': 40, 'list_item_type_edits': 20}
 
 KEYWORDS = {'type', 'anyOf', 'enum', 'minimum', 'maximum', 'exclusiveMinimum', 'exclusiveMaximum', 'minItems', 'maxItems',
             'items', 'additionalItems', 'format', 'properties', 'description', 'title', 'allOf', 'oneOf', 'const',
@@ -87,17 +87,34 @@ def run_case(idx, rng, P, rep):
         rep.violation(f'C16/{ptype}/{clause}', msg, case=dict(specs=desc, extra=extra))
 
     level_inst = rng.random() < 0.5
-    src = cls() if level_inst else cls
+    deep = not level_inst and rng.random() < 0.3
+    if deep:
+        # a deeper hierarchy: the parameters are declared at the top; a class in the middle is assigned to at class level
+        # and the constraints of its (now own) Parameter objects are edited, after the bottom class has produced a schema
+        # once; what is checked from here on is the bottom class
+        mid = type(f'K{idx}M', (cls,), {})
+        tip = type(f'K{idx}T', (type(f'K{idx}L', (mid,), {}),), {})
+        tip.param.schema()
+        tip()
+        rep.count('deep_hierarchy_cases')
+    src = cls() if level_inst else (tip if deep else cls)
     customised = False
-    if level_inst and rng.random() < 0.6:
+    if (level_inst or deep) and rng.random() < (0.6 if level_inst else 1.0):
         # per-instance Parameter objects with their own constraints: schema() of the instance must describe them
         for i, s in enumerate(list(specs)):
             if s['ptype'] in ('Integer', 'Number', 'Range', 'Tuple', 'NumericTuple', 'Selector', 'ListSelector', 'String',
-                              'Boolean', 'Date') and rng.random() < 0.6:
+                              'Boolean', 'Date', 'List') and rng.random() < 0.6:
                 s2 = G.gen_spec(rng, s['ptype'], for_schema=True)
                 s2['name'] = s['name']
-                pobj = src.param[s['name']]
-                if s['ptype'] in ('Integer', 'Number', 'Range'):
+                if deep:
+                    setattr(mid, s['name'], getattr(mid, s['name']))        # (gives the middle class its own Parameter object)
+                pobj = (mid if deep else src).param[s['name']]
+                if s['ptype'] == 'List':
+                    # the item type / length bounds are edited after the declaration
+                    pobj.item_type = s2['kw'].get('item_type')
+                    pobj.bounds = s2['kw'].get('bounds', (0, None))
+                    rep.count('list_item_type_edits')
+                elif s['ptype'] in ('Integer', 'Number', 'Range'):
                     pobj.bounds = s2['kw'].get('bounds')
                     pobj.inclusive_bounds = s2['kw'].get('inclusive_bounds', (True, True))
                     s2['kw'].setdefault('bounds', None)
@@ -109,14 +126,16 @@ def run_case(idx, rng, P, rep):
                 if v is None:
                     s2['allow_None'] = True
                 pobj.allow_None = s2['allow_None']
-                with param.parameterized.discard_events(src):
-                    setattr(src, s['name'], v)
+                with param.parameterized.discard_events(mid if deep else src):
+                    setattr(mid if deep else src, s['name'], v)
                 specs[i] = s2
                 customised = True
         desc = G.describe(specs)
         by_name = {s['name']: s for s in specs}
         if customised:
             rep.count('customised_instances')
+        if deep:
+            cls, customised = tip, False       # states are instances of the bottom class from here on
     try:
         schema = src.param.schema()
         schema = json.loads(json.dumps(schema))
